@@ -6,6 +6,7 @@ from ..rules import r6, r6e
 def run(ctx: Ctx) -> list[Ob]:
     obs = r6.r6a(ctx) + r6.r6b(ctx) + r6.r6c(ctx) + r6.r6d(ctx)
     obs += r6e.r6e(ctx)
+    obs += r6e.r6w(ctx)
     return obs
 
 
@@ -23,6 +24,7 @@ SPEC = PropSpec(
         "CompiledCircuitsMap / AbstractCompiler delegate side-consistently. R6d: every PipelineContext operator checks has_symbolic "
         "for each operand, maps it, calls the same-named SF operator with its own registry and returns self.compile(result); every "
         "module-level function resolves the active context and delegates with all its arguments. R6e: no function that constructs and returns an object (in particular OperatorRegistry.from_default_rules, which gives each pipeline context its own registry and token slot) is memoised with functools.cache / lru_cache."
+        " R6w: no class of the compile path (backend, pipeline, BiMap, operator registry) keeps its registrations in a weak container -- an association that lives only while the caller holds the symbolic circuit makes the operator functions on compiled circuits fail for every derived circuit."
     ),
     not_decided="re-entrancy of one context object (excluded by the property); thread/async interleavings of ContextVar (Python semantics).",
     run=run,
